@@ -27,11 +27,11 @@ def events_check(prop):
             _run(prop, "ops5-dev2-cb2-3fd", "thorough", 5, 2, 2, 3, 0.45),
             _run(prop, "ops7-dev2-cb1", "thorough", 7, 2, 1, 2, 0.4),
             _run(prop, "ops5-dev3-cb2", "thorough", 5, 3, 2, 2, 0.6),
-            _run(prop, "ops5-dev2-cb3", "thorough", 5, 2, 3, 2, 0.95),
+            _run(prop, "ops4-dev2-cb3", "thorough", 4, 2, 3, 2, 0.95),
         ],
         deadline=dict(quick=110, thorough=2400),
         bounds=dict(quick="union of three exhaustive explorations with 2 descriptors: (<=5 main-context operations, <=2 deviations, <=1 callback action), (<=4, <=2, <=2), (<=5, <=1, <=2)",
-                    thorough="union of five exhaustive explorations: (<=6 ops, <=2 deviations, <=2 callback actions, 2 descriptors), (5,2,2) with 3 descriptors, (7,2,1), (5,3,2), (5,2,3)"),
+                    thorough="union of five exhaustive explorations: (<=6 ops, <=2 deviations, <=2 callback actions, 2 descriptors), (5,2,2) with 3 descriptors, (7,2,1), (5,3,2), (4,2,3)"),
         assumptions=["poll(2), clock_gettime(2) replaced by the harness (link-time interposition)",
                      "<=3 immediates, <=3 descriptors x 2 directions, <=2 timers live at once; timeouts {0, 1.5 ms, 3 ms, 1 h}; clock starts 2 ms before a second boundary"],
     )
